@@ -76,6 +76,8 @@ pub enum AOp {
     Connect { addr: Addr },
     Bind { addr: Addr },
     Wait { on: u8, id: u32, options: Option<u8> },
+    /// `mem::advise` on an address that is never touched.
+    Madvise { addr: u64, len: u32, advice: u8 },
 }
 
 #[derive(Clone, Debug, Serialize, Deserialize, PartialEq, Eq)]
@@ -137,6 +139,7 @@ pub fn strategy() -> impl Strategy<Value = Audit> {
         3 => addr().prop_map(|addr| AOp::Connect { addr }),
         3 => addr().prop_map(|addr| AOp::Bind { addr }),
         2 => (0u8..3, 1u32..1 << 22, proptest::option::weighted(0.8, 0u8..5)).prop_map(|(on, id, options)| AOp::Wait { on, id, options }),
+        2 => (any::<u64>().prop_map(|a| (a >> 17) << 12), any::<u32>(), 0u8..13).prop_map(|(addr, len, advice)| AOp::Madvise { addr, len, advice }),
     ];
     (op, any::<bool>()).prop_map(|(op, direct)| Audit { op, direct })
 }
@@ -443,7 +446,7 @@ fn run_installed(case: &Audit, classes: &mut Vec<&'static str>, _ctx: &mut Ctx) 
     cfg.direct_slots = 8;
     let mut world = World::new(&cfg).map_err(|e| format!("infra:{e}"))?;
     let i = world.new_fd();
-    let no_fd = matches!(case.op, AOp::Socket { .. } | AOp::Pipe { .. } | AOp::Wait { .. });
+    let no_fd = matches!(case.op, AOp::Socket { .. } | AOp::Pipe { .. } | AOp::Wait { .. } | AOp::Madvise { .. });
     let direct = case.direct && !no_fd;
     if direct {
         world.make_fd_direct(i).map_err(|e| format!("infra:{e}"))?;
@@ -1059,6 +1062,17 @@ fn run_installed(case: &Audit, classes: &mut Vec<&'static str>, _ctx: &mut Ctx) 
                     let _ = s;
                 }
             }
+            (capture(&mut world, fut(f)), w)
+        }
+        AOp::Madvise { addr, len, advice } => {
+            use a10::mem::AdviseFlag as A;
+            let table = [(A::NORMAL, libc::MADV_NORMAL), (A::RANDOM, libc::MADV_RANDOM), (A::SEQUENTIAL, libc::MADV_SEQUENTIAL), (A::WILL_NEED, libc::MADV_WILLNEED), (A::DONT_NEED, libc::MADV_DONTNEED), (A::REMOVE, libc::MADV_REMOVE), (A::DONT_FORK, libc::MADV_DONTFORK), (A::DO_FORK, libc::MADV_DOFORK), (A::HW_POISON, libc::MADV_HWPOISON), (A::MERGEABLE, libc::MADV_MERGEABLE), (A::UNMERGEABLE, libc::MADV_UNMERGEABLE), (A::SOFT_OFFLINE, libc::MADV_SOFT_OFFLINE), (A::HUGE_PAGE, libc::MADV_HUGEPAGE)];
+            let (a, raw) = table[*advice as usize % table.len()];
+            let f = { let _s = track::scope(track::TAG_A10); a10::mem::advise(sq.clone(), *addr as usize as *mut (), *len, a) };
+            // io_uring_prep_madvise(sqe, addr, length, advice): fd -1.
+            let mut w = prep(abi::OP_MADVISE, -1, *addr, *len, 0);
+            w.sqe.op_flags = raw as u32;
+            classes.push("advice");
             (capture(&mut world, fut(f)), w)
         }
     };
